@@ -302,6 +302,13 @@ Proof.
   split; [exact H1 | inversion H2; assumption].
 Qed.
 
+(* the JSON record a message is decoded to, if it is decoded at all *)
+Definition msg_src (decode : list N -> option src) (cfg : config) (m : msg) : option src :=
+  match m with
+  | MName raw _ => if v3 cfg || directory cfg then decode raw else None
+  | MEntry raw _ => decode raw
+  end.
+
 Section Step.
   Variable G : name -> Prop.
 
@@ -411,26 +418,29 @@ Section Step.
     (st' = st /\ res = NErr) \/
     exists ln, good ln /\ G ln /\ sframe (under d ln) st st' /\ (forall ln', res = NOk ln' -> ln' = ln) /\
       map_ok (st_map st') /\
-      (forall id v, map_get (st_map st) id = Some v -> map_get (st_map st') id = Some v).
+      (forall id v, map_get (st_map st) id = Some v -> map_get (st_map st') id = Some v) /\
+      (overwrite cfg = false -> forall s, msg_src decode cfg m = Some s -> map_get (st_map st') (s_id s) = Some ln).
   Proof.
     intros Hu Hcf Hc Hm Hover Hfresh.
     assert (HJ : forall dd t pl, recv_json ck cfg d dd t pl st = (res, st') ->
       (st' = st /\ res = NErr) \/
       exists ln, good ln /\ G ln /\ sframe (under d ln) st st' /\ (forall ln', res = NOk ln' -> ln' = ln) /\
         map_ok (st_map st') /\
-        (forall id v, map_get (st_map st) id = Some v -> map_get (st_map st') id = Some v)).
+        (forall id v, map_get (st_map st) id = Some v -> map_get (st_map st') id = Some v) /\
+        (overwrite cfg = false -> forall s, dd = Some s -> map_get (st_map st') (s_id s) = Some ln)).
     { intros dd t pl. unfold recv_json. destruct dd as [s|]; [|intro H; inversion H; left; auto].
       destruct (s_rel s) as [|r0 rest]; [intro H; inversion H; left; auto|].
       rewrite Hu. cbn [andb]. destruct (forallb valid_name (r0 :: rest)) eqn:Ev; cbn [negb];
         [|intro H; inversion H; left; auto].
       apply forallb_valid_good in Ev. intro H.
-      destruct (cdof_spec cfg d s r0 rest t pl st res st' Hc Ev Hm Hover Hfresh H) as [?|(ln & A & B & C & D & E & F & _)];
-        [left; assumption|]. right. exists ln. repeat (split; [assumption|]). assumption. }
-    unfold step. destruct m as [raw pl|raw pl].
-    - destruct (v3 cfg); [apply HJ|]. destruct (directory cfg); [apply HJ|].
+      destruct (cdof_spec cfg d s r0 rest t pl st res st' Hc Ev Hm Hover Hfresh H) as [?|(ln & A & B & C & D & E & F & K & _)];
+        [left; assumption|]. right. exists ln. repeat (split; [assumption|]).
+      intros Ho s' Hs'. inversion Hs'; subst s'. apply K. exact Ho. }
+    unfold step, msg_src. destruct m as [raw pl|raw pl].
+    - destruct (v3 cfg); [cbn [orb]; apply HJ|]. destruct (directory cfg); [cbn [orb]; apply HJ|].
       intro H. destruct (create_file_spec ck cfg d raw true pl st res st' Hcf Hc Hover Hfresh H)
         as [?|(ln & A & B & C & D & E)]; [left; assumption|].
-      right. exists ln. rewrite E. repeat (split; [assumption|]). auto.
+      right. exists ln. rewrite E. repeat (split; [assumption|]). split; [auto|]. cbn [orb]. intros _ s' Hs'; discriminate Hs'.
     - apply HJ.
   Qed.
 End Step.
@@ -479,12 +489,14 @@ Section Run.
   Lemma step_inv m st res st' : Inv st -> step decode ck cfg d m st = (res, st') ->
     Inv st' /\
     ((st' = st /\ res = NErr) \/
-     exists ln, good ln /\ G ln /\ sframe (under d ln) st st' /\ (forall ln', res = NOk ln' -> ln' = ln)).
+     exists ln, good ln /\ G ln /\ sframe (under d ln) st st' /\ (forall ln', res = NOk ln' -> ln' = ln) /\
+       (forall id v, map_get (st_map st) id = Some v -> map_get (st_map st') id = Some v) /\
+       (overwrite cfg = false -> forall s, msg_src decode cfg m = Some s -> map_get (st_map st') (s_id s) = Some ln)).
   Proof.
     intros HI H. pose proof HI as (I1 & I2 & I3 & I4 & I5).
-    destruct (step_spec G decode ck cfg d m st res st' Hu Hcf I1 I5 Hover) as [[-> ->]|(ln & A & B & C & D & E & _)];
+    destruct (step_spec G decode ck cfg d m st res st' Hu Hcf I1 I5 Hover) as [[-> ->]|(ln & A & B & C & D & E & F & K)];
       [intros Ho n Hs; apply (Hfresh Ho st n HI Hs) | exact H | split; [exact HI | left; auto] |].
-    split; [eapply sframe_inv; eassumption|]. right. exists ln. auto.
+    split; [eapply sframe_inv; eassumption|]. right. exists ln. repeat (split; [assumption|]). assumption.
   Qed.
 
   Lemma recv_msgs_inv : forall ms st rs st', Inv st -> recv_msgs decode ck cfg d ms st = (rs, st') -> Inv st'.
@@ -521,6 +533,66 @@ Section Run.
     - destruct E as [_ E2]. intros e He. apply in_app_or in He as [He|He]; auto.
     - exact I4.
     - exact I5.
+  Qed.
+
+  Lemma skipn_app_exact {A} (a b : list A) : skipn (length a) (a ++ b) = b.
+  Proof. induction a; [reflexivity | exact IHa]. Qed.
+
+  (* per message: its effects lie under ONE clean top-level name satisfying G, which is the
+     name returned when the message is accepted *)
+  Definition msg_ok (re : result * list effect) : Prop :=
+    snd re = [] \/
+    exists ln, good ln /\ G ln /\ (forall e, In e (snd re) -> under d ln (effect_path e)) /\
+               (forall ln', fst re = NOk ln' -> ln' = ln).
+
+  Lemma recv_msgs_results : forall ms st rs st', Inv st -> recv_msgs decode ck cfg d ms st = (rs, st') ->
+    Forall msg_ok rs.
+  Proof.
+    induction ms as [|m ms IH]; intros st rs st' HI H; cbn [recv_msgs] in H; [inversion H; constructor|].
+    destruct (step decode ck cfg d m st) as [r st1] eqn:E1.
+    destruct (recv_msgs decode ck cfg d ms st1) as [rs1 st2] eqn:E2. inversion H; subst.
+    destruct (step_inv m st r st1 HI E1) as [HI1 Hs]. constructor; [|eapply IH; eassumption].
+    destruct Hs as [[-> _]|(ln & A & B & (_ & (es & C1 & C2) & _) & D & _)].
+    - left. cbn. rewrite <- (app_nil_r (st_log st)) at 2. apply skipn_app_exact.
+    - right. exists ln. cbn. rewrite C1, skipn_app_exact. auto.
+  Qed.
+
+  (* fileNameMap: entries persist, and an accepted JSON record got the name its path id maps to *)
+  Lemma recv_msgs_ids : overwrite cfg = false -> forall ms st rs st', Inv st ->
+    recv_msgs decode ck cfg d ms st = (rs, st') ->
+    (forall id v, map_get (st_map st) id = Some v -> map_get (st_map st') id = Some v) /\
+    (forall m r es ln s, In (m, (r, es)) (combine ms rs) -> r = NOk ln -> msg_src decode cfg m = Some s ->
+       map_get (st_map st') (s_id s) = Some ln).
+  Proof.
+    intro Ho. induction ms as [|m ms IH]; intros st rs st' HI H; cbn [recv_msgs] in H.
+    - inversion H; subst. split; [auto | intros ? ? ? ? ? []].
+    - destruct (step decode ck cfg d m st) as [r st1] eqn:E1.
+      destruct (recv_msgs decode ck cfg d ms st1) as [rs1 st2] eqn:E2. inversion H; subst.
+      destruct (step_inv m st r st1 HI E1) as [HI1 Hs]. destruct (IH st1 rs1 st' HI1 E2) as [P1 P2].
+      assert (Hpers : forall id v, map_get (st_map st) id = Some v -> map_get (st_map st1) id = Some v).
+      { destruct Hs as [[-> _]|(ln & _ & _ & _ & _ & Pm & _)]; auto. }
+      split; [intros id v Hv; apply P1, Hpers, Hv|].
+      intros m0 r0 es0 ln0 s0 Hin Hr Hsrc. cbn [combine] in Hin. destruct Hin as [Hin|Hin]; [|eapply P2; eassumption].
+      inversion Hin; subst. destruct Hs as [[_ Hx]|(ln & _ & _ & _ & D & _ & K)]; [discriminate Hx|].
+      rewrite (D ln0 eq_refl). apply P1. apply K; assumption.
+  Qed.
+
+  (* a top-level name that appears was the local name of one of the messages *)
+  Lemma recv_msgs_new_names n : forall ms st rs st', Inv st -> recv_msgs decode ck cfg d ms st = (rs, st') ->
+    lookup (st_fs st) (d ++ [n]) = None -> lookup (st_fs st') (d ++ [n]) <> None ->
+    exists re, In re rs /\ (forall ln', fst re = NOk ln' -> ln' = n) /\ G n.
+  Proof.
+    induction ms as [|m ms IH]; intros st rs st' HI H Hn Hp; cbn [recv_msgs] in H; [inversion H; subst; contradiction|].
+    destruct (step decode ck cfg d m st) as [r st1] eqn:E1.
+    destruct (recv_msgs decode ck cfg d ms st1) as [rs1 st2] eqn:E2. inversion H; subst.
+    destruct (step_inv m st r st1 HI E1) as [HI1 Hs].
+    assert (Hnext : lookup (st_fs st1) (d ++ [n]) = None -> exists re, In re ((r, skipn (length (st_log st)) (st_log st1)) :: rs1) /\
+              (forall ln', fst re = NOk ln' -> ln' = n) /\ G n).
+    { intro Hn1. destruct (IH st1 rs1 st' HI1 E2 Hn1 Hp) as (re & Hin & Hre). exists re. split; [right; exact Hin | exact Hre]. }
+    destruct Hs as [[-> _]|(ln & _ & B & (C & _) & D & _)]; [apply Hnext; exact Hn|].
+    destruct (list_eq_dec N.eq_dec ln n) as [->|Hne].
+    - exists (r, skipn (length (st_log st)) (st_log st1)). split; [left; reflexivity | split; [exact D | exact B]].
+    - apply Hnext. rewrite C; [exact Hn|]. intros [r0 Hr0]. apply app_inv_head in Hr0. inversion Hr0. congruence.
   Qed.
 
   Theorem run_inv ms del : Inv (init_state f0) ->
@@ -624,3 +696,164 @@ Lemma unfixed_witnesses :
                      ex_dest [MName [dot; dot; slash; 120] [9]] false ex_fs)) = [ECreate [[120; dot; 48]]] /\
   inside ex_dest [[120]] = false /\ inside ex_dest [[120; dot; 48]] = false.
 Proof. vm_compute. repeat split. Qed.
+
+(* ---------- C07 ---------- *)
+(* every entry has its parent directory in the list (the root needs no entry) *)
+Definition parent_closedb (f : fs) : bool :=
+  forallb (fun kv => match removelast (fst kv) with
+                     | [] => true
+                     | par => match lookup f par with Some Dir => true | _ => false end
+                     end) f.
+
+Lemma lookup_in f p nd : lookup f p = Some nd -> In (p, nd) f.
+Proof.
+  induction f as [|[k n] f IH]; cbn [lookup]; [discriminate|].
+  destruct (path_eqb k p) eqn:E; [|intro H; right; apply IH; exact H].
+  apply path_eqb_eq in E. subst k. intro H; inversion H; subst. left; reflexivity.
+Qed.
+
+Lemma parent_closed_step f a c nd : parent_closedb f = true -> a <> [] -> lookup f (a ++ [c]) = Some nd ->
+  lookup f a = Some Dir.
+Proof.
+  intros Hpc Ha Hl. apply lookup_in in Hl. unfold parent_closedb in Hpc. rewrite forallb_forall in Hpc.
+  specialize (Hpc _ Hl). cbn [fst] in Hpc. rewrite removelast_last in Hpc.
+  destruct a as [|x a]; [congruence|]. destruct (lookup f (x :: a)) as [[|]|]; congruence.
+Qed.
+
+Lemma parent_closed_prefix f a : parent_closedb f = true -> a <> [] -> forall r, lookup f (a ++ r) <> None ->
+  lookup f a <> None.
+Proof.
+  intros Hpc Ha r. induction r as [|c r IH] using rev_ind; [rewrite app_nil_r; auto|].
+  intro H. apply IH. destruct (lookup f (a ++ r ++ [c])) as [nd|] eqn:E; [|congruence].
+  rewrite app_assoc in E. rewrite (parent_closed_step f (a ++ r) c nd Hpc); [discriminate | destruct a; [congruence | discriminate] | exact E].
+Qed.
+
+Section Fresh.
+  Variables (decode : list N -> option src) (cfg : config) (d : path) (f0 : fs).
+  Hypothesis Ho : overwrite cfg = false.
+  Hypothesis Hd : stat f0 d = SFound Dir.
+
+  (* top-level names of the destination that did not exist before the transfer *)
+  Definition G0 (n : name) : Prop := lookup f0 (d ++ [n]) = None.
+
+  Lemma G0_over : overwrite cfg = true -> forall n, G0 n.
+  Proof. rewrite Ho. discriminate. Qed.
+
+  Lemma G0_fresh : overwrite cfg = false -> forall st n, Inv d f0 G0 st ->
+    stat (st_fs st) (d ++ [n]) = SNotExist -> G0 n.
+  Proof.
+    intros _ st n (I1 & I2 & _) Hs. apply (stat_notexist_lookup _ _ _ I1) in Hs.
+    unfold G0. destruct (lookup f0 (d ++ [n])) as [nd|] eqn:E; [|reflexivity].
+    rewrite I2 in Hs; [congruence|]. intros (ln & r & Hq & HG). apply app_inv_head in Hq.
+    inversion Hq; subst. unfold G0 in HG. congruence.
+  Qed.
+
+  Lemma existing_not_own p : parent_closedb f0 = true -> lookup f0 p <> None -> ~ underG d G0 p.
+  Proof.
+    intros Hpc Hp (ln & r & -> & HG). unfold G0 in HG.
+    apply (parent_closed_prefix f0 (d ++ [ln]) Hpc) with (r := r); [destruct d; discriminate | | exact HG].
+    rewrite <- app_assoc. exact Hp.
+  Qed.
+
+  Let o ms del := recv_names decode cfg d ms del f0.
+
+  Lemma fresh_inv ms del : Inv d f0 G0 (o_mid (o ms del)) /\ Inv d f0 G0 (o_final (o ms del)).
+  Proof.
+    destruct code_checks_on as [Hu Hcf].
+    apply (run_inv decode code_checks cfg d f0 G0 Hu Hcf G0_over G0_fresh ms del (init_inv d f0 _ Hd)).
+  Qed.
+
+  Theorem preserves ms del : parent_closedb f0 = true -> forall p nd, lookup f0 p = Some nd ->
+    lookup (st_fs (o_final (o ms del))) p = Some nd /\
+    (forall e, In e (st_log (o_final (o ms del))) -> effect_path e <> p).
+  Proof.
+    intros Hpc p nd Hp. destruct (fresh_inv ms del) as [_ (_ & I2 & I3 & _)].
+    assert (Hno : ~ underG d G0 p) by (apply existing_not_own; [exact Hpc | congruence]).
+    split; [rewrite I2; assumption|]. intros e He Heq. apply Hno. rewrite <- Heq. apply I3. exact He.
+  Qed.
+
+  Lemma results_eq ms del : recv_msgs decode code_checks cfg d ms (init_state f0) = (o_results (o ms del), o_mid (o ms del)).
+  Proof.
+    unfold o, recv_names, recv_names_gen. destruct (recv_msgs decode code_checks cfg d ms (init_state f0)) as [rs st1].
+    destruct del; [destruct (delete_created st1)|]; reflexivity.
+  Qed.
+
+  (* every message's effects lie under one clean top-level name that did not exist before;
+     an accepted message returns that name *)
+  Theorem consistent_effects ms del : forall r es, In (r, es) (o_results (o ms del)) ->
+    es = [] \/ exists ln, good ln /\ lookup f0 (d ++ [ln]) = None /\
+      (forall e, In e es -> exists rest, effect_path e = d ++ ln :: rest) /\ (forall ln', r = NOk ln' -> ln' = ln).
+  Proof.
+    intros r es Hin. destruct code_checks_on as [Hu Hcf].
+    pose proof (recv_msgs_results decode code_checks cfg d f0 G0 Hu Hcf G0_over G0_fresh ms _ _ _ (init_inv d f0 _ Hd) (results_eq ms del)) as HF.
+    rewrite Forall_forall in HF. exact (HF _ Hin).
+  Qed.
+
+  (* one name per path id: every accepted JSON record (NAME message or archive entry) got the
+     name the final fileNameMap has for its path id *)
+  Theorem consistent_ids ms del : forall m r es ln s,
+    In (m, (r, es)) (combine ms (o_results (o ms del))) -> r = NOk ln -> msg_src decode cfg m = Some s ->
+    map_get (st_map (o_mid (o ms del))) (s_id s) = Some ln.
+  Proof.
+    destruct code_checks_on as [Hu Hcf].
+    destruct (recv_msgs_ids decode code_checks cfg d f0 G0 Hu Hcf G0_over G0_fresh Ho ms _ _ _ (init_inv d f0 _ Hd) (results_eq ms del)) as [_ H].
+    exact H.
+  Qed.
+
+  (* every top-level name of the destination that is new after the messages was returned
+     for one of them (all accepted) *)
+  Theorem consistent_names ms del : (forall r es, In (r, es) (o_results (o ms del)) -> r <> NErr) ->
+    forall n, lookup f0 (d ++ [n]) = None -> lookup (st_fs (o_mid (o ms del))) (d ++ [n]) <> None ->
+    exists es, In (NOk n, es) (o_results (o ms del)).
+  Proof.
+    intros Hall n Hn Hp. destruct code_checks_on as [Hu Hcf].
+    destruct (recv_msgs_new_names decode code_checks cfg d f0 G0 Hu Hcf G0_over G0_fresh n ms _ _ _ (init_inv d f0 _ Hd)
+                (results_eq ms del) Hn Hp) as ([r es] & Hin & Hr & _).
+    exists es. cbn [fst] in Hr. destruct r as [ln|]; [|exfalso; eapply Hall; [exact Hin | reflexivity]].
+    rewrite (Hr ln eq_refl) in Hin. exact Hin.
+  Qed.
+
+  (* and a returned name is always one that did not exist before *)
+  Theorem returned_fresh ms del : forall n es, In (NOk n, es) (o_results (o ms del)) -> es <> [] ->
+    lookup f0 (d ++ [n]) = None.
+  Proof.
+    intros n es Hin Hne. destruct (consistent_effects ms del _ _ Hin) as [->|(ln & _ & HG & _ & Hr)]; [congruence|].
+    rewrite (Hr n eq_refl). exact HG.
+  Qed.
+End Fresh.
+
+(* getNewName fails, and createFile with it, without touching anything *)
+Theorem exhausted_no_effect decode cfg d nm pl st :
+  overwrite cfg = false -> v3 cfg = false -> directory cfg = false ->
+  (forall c, In c (candidates nm) -> stat (st_fs st) (join d [c]) <> SNotExist) ->
+  get_new_name (st_fs st) d nm = None /\ step decode code_checks cfg d (MName nm pl) st = (NErr, st).
+Proof.
+  intros Ho H3 Hdir H. pose proof (exhausted _ _ _ H) as E. split; [exact E|].
+  unfold step. rewrite H3, Hdir. unfold create_file. rewrite Ho, E.
+  destruct (chk_create_file code_checks && negb (valid_name nm)); reflexivity.
+Qed.
+
+(* the candidate list is name, name.0, ..., name.999 in this order *)
+Lemma candidates_shape : length (candidates [120]) = 1001%nat /\
+  firstn 4 (candidates [120]) = [[120]; [120; 46; 48]; [120; 46; 49]; [120; 46; 50]] /\
+  nth 11 (candidates [120]) [] = [120; 46; 49; 48] /\
+  nth 1000 (candidates [120]) [] = [120; 46; 57; 57; 57].
+Proof. vm_compute. repeat split. Qed.
+
+(* decimal is Coq's own decimal printer on every index getNewName uses *)
+Fixpoint uint_bytes (u : Decimal.uint) : list N :=
+  match u with
+  | Decimal.Nil => []
+  | Decimal.D0 u => 48 :: uint_bytes u | Decimal.D1 u => 49 :: uint_bytes u | Decimal.D2 u => 50 :: uint_bytes u
+  | Decimal.D3 u => 51 :: uint_bytes u | Decimal.D4 u => 52 :: uint_bytes u | Decimal.D5 u => 53 :: uint_bytes u
+  | Decimal.D6 u => 54 :: uint_bytes u | Decimal.D7 u => 55 :: uint_bytes u | Decimal.D8 u => 56 :: uint_bytes u
+  | Decimal.D9 u => 57 :: uint_bytes u
+  end.
+
+Lemma decimal_matches_stdlib : forall i, (i < N.to_nat names_max_tries)%nat ->
+  decimal (N.of_nat i) = uint_bytes (N.to_uint (N.of_nat i)).
+Proof.
+  assert (H : forallb (fun i => list_eqb (decimal (N.of_nat i)) (uint_bytes (N.to_uint (N.of_nat i))))
+                (seq 0 (N.to_nat names_max_tries)) = true) by (vm_compute; reflexivity).
+  rewrite forallb_forall in H. intros i Hi. apply list_eqb_eq. apply H. apply in_seq. lia.
+Qed.
